@@ -281,8 +281,11 @@ extern MPT_INTERFACE(metatype) *_mpt_iterator_range(MPT_STRUCT(value) *val)
 			return 0;
 		}
 		
+		/* equal or non-finite bounds and steps yield no element count
+		 * (NaN compares false above and must not reach the integer conversion) */
 		if (step > (r.max - r.min)
-		  || step < (r.max - r.min) * 1e-6) {
+		  || step < (r.max - r.min) * 1e-6
+		  || !((r.max - r.min) / step >= 1.0)) {
 			errno = ERANGE;
 			return 0;
 		}
